@@ -22,6 +22,7 @@ def run(ctx):
         qharness.scripted_restart(ctx, ('c12',), backend)
     qharness.explore(ctx, ('c12',), 600 if ctx.quick else 6000, 40, CFGS)
     qharness.bounded_pool_scenario(ctx)
+    qharness.unbounded_relay_pool_scenario(ctx)
 
 
 def replay(ctx, case):
